@@ -423,6 +423,197 @@ fn run_ordered_map(b: u32, steps: &[J], nkeys: u32) -> R<()> {
     Ok(())
 }
 
+
+/// Containers that expose only part of the map interface (the two-vector backing store `Vec2`, the
+/// unordered map / set, the ordered set, the sorted map / set / vec) follow the same history through
+/// the operations they have; after every step their contents must be the model's sequence (as a
+/// sequence where the container is ordered, as a sorted sequence otherwise).
+fn run_others(b: u32, steps: &[J], nkeys: u32) -> R<()> {
+    use starlark_map::ordered_set::OrderedSet;
+    use starlark_map::sorted_map::SortedMap;
+    use starlark_map::sorted_set::SortedSet;
+    use starlark_map::sorted_vec::SortedVec;
+    use starlark_map::unordered_map::UnorderedMap;
+    use starlark_map::unordered_set::UnorderedSet;
+    use starlark_map::vec2::Vec2;
+    let mut v2: Vec2<K, u32> = Vec2::new();
+    let mut um: UnorderedMap<K, u32> = UnorderedMap::new();
+    let mut us: UnorderedSet<K> = UnorderedSet::new();
+    let mut os: OrderedSet<K> = OrderedSet::new();
+    for (n, st) in steps.iter().enumerate() {
+        let op = st["op"].as_str().unwrap_or("");
+        let (k, v, i) = (u(st, "k"), u(st, "v"), u(st, "i"));
+        let some = st["some"].as_bool().unwrap_or(false);
+        let pos_of = |v2: &Vec2<K, u32>, kk: &K| v2.iter().position(|(x, _)| x == kk);
+        match op {
+            "insert" | "entry_or_insert" => {
+                for j in 0..b {
+                    let kk = K { a: k, j };
+                    match pos_of(&v2, &kk) {
+                        Some(p) => {
+                            if op == "insert" {
+                                *v2.get_mut(p).unwrap().1 = v;
+                            }
+                        }
+                        None => v2.push(kk.clone(), v),
+                    }
+                    if op == "insert" {
+                        let was = um.insert(kk.clone(), v);
+                        ensure!(was.is_some() == some, "umap step {} insert({}) returned {:?}", n, k, was);
+                    } else if !um.contains_key(&kk) {
+                        um.insert(kk.clone(), v);
+                    }
+                    let new_s = us.insert(kk.clone());
+                    let new_o = os.insert(kk.clone());
+                    ensure!(new_s == new_o, "uset/oset step {} insert({}) new: {} {}", n, k, new_s, new_o);
+                    if op == "insert" {
+                        ensure!(new_o == !some, "oset step {} insert({}) new={}", n, k, new_o);
+                    }
+                }
+            }
+            "insert_unique" => {
+                for j in 0..b {
+                    let kk = K { a: k, j };
+                    v2.push(kk.clone(), v);
+                    um.insert(kk.clone(), v);
+                    us.insert(kk.clone());
+                    os.insert_unique_unchecked(kk);
+                }
+            }
+            "shift_remove" | "shift_remove_index" | "pop" => {
+                // the model names the key that goes (k) whenever something is removed
+                let gone = if op == "shift_remove" { true } else { some };
+                if op == "pop" && some {
+                    for _ in 0..b {
+                        let r = v2.pop();
+                        ensure!(r.as_ref().map(|x| x.0.a) == Some(k), "vec2 step {} pop = {:?}", n, r);
+                    }
+                } else if op == "shift_remove_index" && some {
+                    for _ in 0..b {
+                        let r = v2.remove((i * b) as usize);
+                        ensure!(r.0.a == k, "vec2 step {} remove({}) = {:?}", n, i, r);
+                    }
+                } else if op == "shift_remove" {
+                    for j in 0..b {
+                        if let Some(p) = pos_of(&v2, &K { a: k, j }) {
+                            v2.remove(p);
+                        }
+                    }
+                } else if op == "pop" {
+                    ensure!(v2.pop().is_none(), "vec2 pop on empty");
+                }
+                if gone {
+                    for j in 0..b {
+                        let kk = K { a: k, j };
+                        let r = um.remove(&kk);
+                        ensure!(r.is_some() == some, "umap step {} remove({}) = {:?}", n, k, r);
+                        let t = os.take(&kk);
+                        ensure!(t.is_some() == some, "oset step {} take({}) = {:?}", n, k, t);
+                        match us.raw_entry_mut().from_entry(&kk) {
+                            starlark_map::unordered_set::RawEntryMut::Occupied(e) => {
+                                ensure!(some, "uset step {}: {} present", n, k);
+                                e.remove();
+                            }
+                            starlark_map::unordered_set::RawEntryMut::Vacant(_) => ensure!(!some, "uset step {}: {} absent", n, k),
+                        }
+                    }
+                }
+            }
+            "reverse" => {
+                let mut all: Vec<(K, u32)> = v2.iter().map(|(a, b)| (a.clone(), *b)).collect();
+                all.reverse();
+                v2 = all.into_iter().collect();
+                os.reverse();
+            }
+            "sort_keys" => {
+                v2.sort_by(|x, y| x.0.cmp(y.0));
+                os.sort();
+            }
+            "retain" => {
+                let keep: BTreeSet<u32> = arr(st, "s").into_iter().collect();
+                v2.retain(|kk, _| keep.contains(&kk.a));
+                um.retain(|kk, _| keep.contains(&kk.a));
+                let drop: Vec<K> = os.iter().filter(|kk| !keep.contains(&kk.a)).cloned().collect();
+                for kk in drop {
+                    os.take(&kk);
+                    if let starlark_map::unordered_set::RawEntryMut::Occupied(e) = us.raw_entry_mut().from_entry(&kk) {
+                        e.remove();
+                    }
+                }
+            }
+            "clear" => {
+                v2.clear();
+                um.clear();
+                us.clear();
+                os.clear();
+            }
+            "reserve" => v2.reserve((i * b) as usize),
+            "maybe_drop_index" | "get" => {}
+            _ => return fail(format!("unknown op {}", op)),
+        }
+        // the model's sequence, expanded to blocks
+        let keys = arr(st, "keys");
+        let vals = arr(st, "vals");
+        let real: Vec<(K, u32)> = v2.iter().map(|(a, b)| (a.clone(), *b)).collect();
+        ensure!(real.len() == keys.len() * b as usize && v2.len() == real.len() && v2.is_empty() == real.is_empty(), "vec2 step {} len {}", n, real.len());
+        for (p, a) in keys.iter().enumerate() {
+            ensure!(real[p * b as usize..(p + 1) * b as usize].iter().all(|x| x.0.a == *a && x.1 == vals[p]), "vec2 step {} ({}) order/contents: block {} expected {}={} got {:?}", n, op, p, a, vals[p], &real[p * b as usize..(p + 1) * b as usize]);
+        }
+        for (idx, x) in real.iter().enumerate() {
+            ensure!(v2.get(idx) == Some((&x.0, &x.1)), "vec2 step {} get({})", n, idx);
+        }
+        ensure!(v2.get(real.len()).is_none(), "vec2 get past the end");
+        ensure!(v2.first() == real.first().map(|x| (&x.0, &x.1)) && v2.last() == real.last().map(|x| (&x.0, &x.1)), "vec2 first/last");
+        let cl = v2.clone();
+        ensure!(cl == v2 && cl.iter().count() == real.len(), "vec2 clone differs");
+        if real.len() >= 2 {
+            let mut t = v2.clone();
+            t.truncate(real.len() - 1);
+            ensure!(t.len() == real.len() - 1 && t.last() == Some((&real[real.len() - 2].0, &real[real.len() - 2].1)), "vec2 truncate");
+            t.shrink_to_fit();
+            ensure!(t.iter().map(|(a, b)| (a.clone(), *b)).collect::<Vec<_>>() == real[..real.len() - 1].to_vec(), "vec2 shrink_to_fit changed contents");
+        }
+        // ordered set: the same order
+        let oreal: Vec<K> = os.iter().cloned().collect();
+        ensure!(oreal.len() == real.len() && os.len() == real.len(), "oset step {} len {} expected {}", n, oreal.len(), real.len());
+        for (p, a) in keys.iter().enumerate() {
+            ensure!(oreal[p * b as usize..(p + 1) * b as usize].iter().all(|x| x.a == *a), "oset step {} ({}) order: block {} expected {}", n, op, p, a);
+        }
+        for (idx, x) in oreal.iter().enumerate() {
+            ensure!(os.get_index(idx) == Some(x) && os.get_index_of(x) == Some(idx), "oset step {} index {}", n, idx);
+        }
+        ensure!(os.first() == oreal.first() && os.last() == oreal.last(), "oset first/last");
+        // unordered and sorted containers: the sorted sequence
+        let mut sorted: Vec<(K, u32)> = real.clone();
+        sorted.sort();
+        let ue: Vec<(K, u32)> = um.entries_sorted().into_iter().map(|(a, b)| (a.clone(), *b)).collect();
+        ensure!(ue == sorted && um.len() == sorted.len(), "umap step {} ({}) contents {:?} expected {:?}", n, op, ue.len(), sorted.len());
+        let use_: Vec<K> = us.entries_sorted().into_iter().cloned().collect();
+        ensure!(use_ == sorted.iter().map(|x| x.0.clone()).collect::<Vec<_>>() && us.len() == sorted.len(), "uset step {} ({}) contents", n, op);
+        let sm: SortedMap<K, u32> = real.iter().cloned().collect();
+        ensure!(sm.iter().map(|(a, b)| (a.clone(), *b)).collect::<Vec<_>>() == sorted && sm.len() == sorted.len(), "sorted map step {} order", n);
+        let ss: SortedSet<K> = real.iter().map(|x| x.0.clone()).collect();
+        ensure!(ss.iter().cloned().collect::<Vec<_>>() == sorted.iter().map(|x| x.0.clone()).collect::<Vec<_>>(), "sorted set step {} order", n);
+        let sv: SortedVec<K> = real.iter().map(|x| x.0.clone()).collect();
+        ensure!(sv.iter().cloned().collect::<Vec<_>>() == ss.iter().cloned().collect::<Vec<_>>(), "sorted vec step {} order", n);
+        let ss2: SortedSet<K> = SortedSet::from(os.clone());
+        ensure!(ss2.iter().cloned().collect::<Vec<_>>() == ss.iter().cloned().collect::<Vec<_>>(), "sorted set from ordered set");
+        for a in 1..=nkeys {
+            for j in 0..b {
+                let kk = K { a, j };
+                let exp = real.iter().find(|x| x.0 == kk).map(|x| x.1);
+                ensure!(um.get(&kk).copied() == exp && um.contains_key(&kk) == exp.is_some(), "umap step {} lookup {:?}", n, kk);
+                ensure!(us.contains(&kk) == exp.is_some() && os.contains(&kk) == exp.is_some() && os.get(&kk).is_some() == exp.is_some(), "set step {} lookup {:?}", n, kk);
+                ensure!(sm.get(&kk).copied() == exp && sm.contains_key(&kk) == exp.is_some() && ss.contains(&kk) == exp.is_some(), "sorted step {} lookup {:?}", n, kk);
+                if let Some(p) = sorted.iter().position(|x| x.0 == kk) {
+                    ensure!(ss.get_index(p) == Some(&kk), "sorted set get_index({})", p);
+                }
+            }
+        }
+    }
+    Ok(())
+}
+
 pub fn replay(rest: &[String]) -> anyhow::Result<()> {
     let cases = util::read_ndjson(&rest[0])?;
     let mut out = util::NdWriter::create(&rest[1])?;
@@ -478,6 +669,13 @@ pub fn replay(rest: &[String]) -> anyhow::Result<()> {
                 Ok(Ok(())) => {}
                 Ok(Err(f)) => res = json!({"id": id, "ok": false, "target": "OrderedMap", "mode": "natural", "what": f.what}),
                 Err(p) => res = json!({"id": id, "ok": false, "target": "OrderedMap", "mode": "natural", "what": format!("panic: {}", p)}),
+            }
+        }
+        if res["ok"] == json!(true) {
+            match util::catch(|| run_others(b, &steps, nkeys)) {
+                Ok(Ok(())) => {}
+                Ok(Err(f)) => res = json!({"id": id, "ok": false, "target": "Vec2/Unordered/OrderedSet/Sorted", "mode": "natural", "what": f.what}),
+                Err(p) => res = json!({"id": id, "ok": false, "target": "Vec2/Unordered/OrderedSet/Sorted", "mode": "natural", "what": format!("panic: {}", p)}),
             }
         }
         if res["ok"] == json!(true) {
